@@ -174,6 +174,15 @@ def blackbox(ctx):
     torus = sp.csr_array(6.5 * sp.kron(I1, I1) - 2.0 * sp.kron(S1, I1) - 0.5 * sp.kron(S1.T, I1)
                          - 2.5 * sp.kron(I1, S1) - 1.0 * sp.kron(I1, S1.T))
     probs.append(('periodic-upwind-torus-8x8', torus, False))
+    # the same on a convection-dominated scale (conjugate gradients diverge on it)
+    nc_ = 24          # (576 unknowns: above the 500 at which the black box stops coarsening)
+    hc_ = 1.0 / nc_
+    Ic = sp.eye_array(nc_, format='csr')
+    Sc = sp.csr_array(np.roll(np.eye(nc_), 1, axis=1))
+    D2c = (2 * Ic - Sc - Sc.T) / hc_ ** 2
+    Dupc = (Ic - Sc.T) / hc_
+    cdr = sp.csr_array(sp.kron(Ic, 0.05 * D2c + 1.0 * Dupc) + sp.kron(0.05 * D2c + 0.5 * Dupc, Ic) + sp.eye_array(nc_ * nc_))
+    probs.append(('periodic-convection-dominated-24x24', cdr, False))
     for name, A, spd in probs:
         n = A.shape[0]
         existing = None
